@@ -782,6 +782,29 @@ class Interp(object):
                 va = alg_weaken(va, idx.a(at))
             alg[at] = alg_lub(arr.a(at), va)
         kind = arr.kind
+        # placeholder arrays (np.ones_like / np.empty ...) that are overwritten completely: x[:-1] = ..; x[-1] = ..
+        cov = None
+        if isinstance(arr.note, tuple) and arr.note and arr.note[0] == "init" and idx is not None and arr.shape is not None and len(arr.shape) == 1:
+            reg = None
+            if idx.kind == K_SLICE and idx.items is not None:
+                lo, up, stp = idx.items
+                lc = lo.const if (lo is not None and lo.has_const()) else ("none" if lo is None else "?")
+                uc = up.const if (up is not None and up.has_const()) else ("none" if up is None else "?")
+                if stp is None:
+                    reg = {("none", -1): "all-but-last", (1, "none"): "all-but-first", ("none", "none"): "all", (0, "none"): "all",
+                           (0, -1): "all-but-last"}.get((lc, uc))
+            elif idx.kind == K_SCALAR and idx.has_const() and idx.const in (0, -1):
+                reg = "first" if idx.const == 0 else "last"
+            if reg is not None:
+                _, stored, regions = arr.note
+                stored = v if stored is None else join_av(stored, v)
+                regions = regions | frozenset([reg])
+                full = "all" in regions or {"all-but-last", "last"} <= regions or {"all-but-first", "first"} <= regions
+                cov = ("init", stored, regions)
+                if full:
+                    sv = self.api.as_num(stored)
+                    return arr.replace(alg=dict(sv.alg), sign=sv.sign, mono=frozenset(), f0=False, const=_NOCONST,
+                                       tags=arr.tags | stored.tags | idx.tags, indef=arr.indef or stored.indef, note=cov)
         keep_f0 = False
         if arr.f0 and idx is not None:
             last = idx.items[-1] if (idx.kind == K_TUPLE and idx.items) else idx
@@ -792,7 +815,8 @@ class Interp(object):
             return arr.replace(elem=join_av(arr.elem, v) if arr.elem is not None else v, items=None,
                                tags=arr.tags | v.tags, indef=arr.indef or v.indef, mono=frozenset(), note=None,
                                shape=None, alg=alg)
-        return arr.replace(alg=alg, sign=sign_join(arr.sign, v.sign), mono=frozenset(), f0=keep_f0, const=_NOCONST,
+        return arr.replace(note=cov if cov is not None else (arr.note if not (isinstance(arr.note, tuple) and arr.note and arr.note[0] == "init") else None),
+                           alg=alg, sign=sign_join(arr.sign, v.sign), mono=frozenset(), f0=keep_f0, const=_NOCONST,
                            tags=arr.tags | v.tags | (idx.tags if idx is not None else frozenset()),
                            indef=arr.indef or v.indef, kind=kind)
 
